@@ -33,7 +33,7 @@ ROWS = {
               "multi-thread mode with a block-size argument different from config.block_size",
               "C04 quick (config/argument mismatch coordinate, added after the first miss): max_block_size", ""),
     "C05-1": ("C05", "lpc.rs WindowKey keyed by ceil(size/16)", "a last block within 15 samples of the block size; a thread that encoded the other length first",
-              "C05 quick breadth part: mt_vs_st|frames (conclusive, history dependent); C10 quick", "invisible to loom (thread-local scratch is shared by loom's coroutines), found by the real-thread part"),
+              "C05 quick breadth part: mt_vs_st|frames (conclusive, history dependent); C10 quick; since hook 82b277e also C05 layer 1 (loom): bytes_differ in cfg_w2_f2_bytes", "was invisible to loom while its coroutines shared the thread-local scratch"),
     "C05-2": ("C05", "same mechanism as C03-2 (authored independently)", "as C03-2", "C05 quick breadth part: mt_vs_st|streaminfo", ""),
     "C06-1": ("C06", "par.rs worker leaves its loop after the first failed frame", "as many invalid blocks as workers, followed by more blocks",
               "C06 quick: loom deadlock (scenario w1_f3_badsample@0)", "loom aborts the child on a deadlock; the verdict is read from the panic journal"),
@@ -88,7 +88,7 @@ ROWS = {
     "C05b-1": ("C05", "bitrepr.rs utf8like_bytesize over-counts by one byte for 11-, 16-, 21-bit numbers", "more than 1024 frames with the extreme frame numbered 1024..2047 (single-thread sizes come from count_bits, multi-thread ones from the precomputed bytes)",
                "C04 quick (1300-frame streams, added after reading the change): max_frame_size; C08 quick (header grid at every power of two, added): count_mismatch; C05 quick breadth (1300 / 2100-frame streams, added after the first miss): mt_vs_st|streaminfo", ""),
     "C05b-2": ("C05", "lpc.rs auto-correlation accumulators never cleared (two cooperating sites)", "any second LPC analysis on a thread",
-               "C10 quick: history_dependent; C05 quick breadth: frame_level_vs_st / mt_vs_st (conclusive)", "invisible to loom (shared thread-local scratch)"),
+               "C10 quick: history_dependent; C05 quick breadth: frame_level_vs_st / mt_vs_st (conclusive); since hook 82b277e also the in-model reference comparison of C05 layer 1: st_vs_framewise", "was invisible to loom while its coroutines shared the thread-local scratch"),
     "C06b-1": ("C06", "par.rs: the read error is returned before the frame results are inspected", "an out-of-width block followed by a read error in one source",
                "C06 quick: result_kind_differs (scenario ..badsample@0+readerr@1)", ""),
     "C06b-2": ("C06", "par.rs ParContext::fill_le_bytes accepts containers wider than the declared width", "multi-thread mode and a byte source using more bytes per sample than declared",
